@@ -107,6 +107,12 @@ func TestC20(t *testing.T) {
 		{target: Target{Name: "custom:Chrome_102", Spec: specOfID(tls.HelloChrome_102)}, kind: "ticket", scfg: mkServer(tls.VersionTLS12), hasExt: true},
 		{target: Target{Name: "custom:Chrome_100_PSK", Spec: specOfID(tls.HelloChrome_100_PSK)}, kind: "psk", scfg: mkServer(tls.VersionTLS13), hasExt: true},
 		{target: Target{Name: "Golang", ID: tls.HelloGolang}, kind: "ticket", scfg: mkServer(tls.VersionTLS12), hasExt: false},
+		// presets with neither a session_ticket nor a pre_shared_key extension: an injected PSK
+		// has nowhere to go and has to be refused
+		{target: Target{Name: "IOS_14(neither ext)", ID: tls.HelloIOS_14}, kind: "psk", scfg: mkServer(tls.VersionTLS13), hasExt: false},
+		{target: Target{Name: "Safari_16_0(neither ext)", ID: tls.HelloSafari_16_0}, kind: "psk", scfg: mkServer(tls.VersionTLS13), hasExt: false},
+		{target: Target{Name: "Android_11_OkHttp(neither ext)", ID: tls.HelloAndroid_11_OkHttp}, kind: "psk", scfg: mkServer(tls.VersionTLS13), hasExt: false},
+		{target: Target{Name: "IOS_14(neither ext, ticket)", ID: tls.HelloIOS_14}, kind: "ticket", scfg: mkServer(tls.VersionTLS12), hasExt: false},
 		// forged as the README shows: MakeClientSessionState(ticket, vers, suite, secret, nil, nil)
 		{target: Target{Name: "Chrome_100+forged-without-certs", ID: tls.HelloChrome_100}, kind: "ticket", scfg: mkServer(tls.VersionTLS12), hasExt: true, nilCerts: true},
 		{target: Target{Name: "custom:Firefox_105+forged-without-certs", Spec: specOfID(tls.HelloFirefox_105)}, kind: "ticket", scfg: mkServer(tls.VersionTLS12), hasExt: true, nilCerts: true},
